@@ -250,7 +250,7 @@ def gen_blocks(c, depth, n, in_item=False, in_quote=False, tight=False):
         if b.kind in ('icode',):
             b.a['indent'] = 0
         out.append(b)
-    return fix_seq(c, out)
+    return fix_seq(c, out, in_item)
 
 
 def _filler():
@@ -461,7 +461,7 @@ def need_blank(a, b):
     return False
 
 
-def fix_seq(c, bs):
+def fix_seq(c, bs, in_item=False):
     """Drop adjacencies that cannot be written (forbidden, not merely needing a blank line)."""
     out = []
     for b in bs:
@@ -473,7 +473,14 @@ def fix_seq(c, bs):
                 pass
         out.append(b)
     if 'adjacent_lists' in c.exclude:
-        out = [b for i, b in enumerate(out) if not (b.kind == 'list' and i and out[i - 1].kind == 'list')]
+        # recorded finding F25 needs a last item with more than one child in front of the second list
+        kept = []
+        for b in out:
+            # (inside a list item the blank line between the two lists is lost for the enclosing list as well)
+            if b.kind == 'list' and kept and kept[-1].kind == 'list' and (in_item or len(kept[-1].items[-1].children) != 1):
+                continue
+            kept.append(b)
+        out = kept
     if 'empty_last_item_then_sibling' in c.exclude:
         for i, b in enumerate(out[:-1]):
             if b.kind == 'list' and not b.items[-1].children:
